@@ -409,6 +409,12 @@ func checkC05History(c *Case, st *Stats) *Failure {
 		}
 	}
 done:
+	if len(tr.RT.Nested) > 0 {
+		setFail(&Failure{CNested, fmt.Sprintf("constructors were entered while they were already being built: %v", tr.RT.Nested)})
+	}
+	if tr.RT.Reentered > 0 {
+		l["reentrant-invoke"] = true
+	}
 	l["scopes>=2"] = len(m.Scopes) >= 2
 	for _, op := range c.Ops {
 		if op.O != nil && op.O.Export {
@@ -461,6 +467,12 @@ func init() {
 			k.Groups = []string{"g"}
 			k.MaxScopes, k.MaxDepth = 6, 3
 			k.MaxOps = 22
+			// a fifth of the histories: constructor bodies call back into
+			// the container (a constructor under construction must never
+			// be re-entered)
+			if rapid.IntRange(0, 9).Draw(t, "reentrant-case") >= 8 {
+				k.PReenter = 40
+			}
 			return GenCase(t, scale(k, thorough))
 		},
 		Check: func(c *Case, st *Stats) *Failure {
